@@ -59,6 +59,8 @@ func fixedScenarios(f lib.Flags) []Scenario {
 					Subs: []SubSpec{{Kind: "pull", BP: bp, UpdatesOnly: uo, Consume: "none", Cancel: "end"}}})
 				add(Scenario{Class: "stop-then-cancel", Res: r, Writers: w1,
 					Subs: []SubSpec{{Kind: "pull", BP: bp, UpdatesOnly: uo, Consume: "stop", StopAfter: 1, Cancel: "end"}}})
+				add(Scenario{Class: "abandon-cancel-walk-away", Res: r, Writers: w1,
+					Subs: []SubSpec{{Kind: "pull", BP: bp, UpdatesOnly: uo, Consume: "abandon", Cancel: "end"}}})
 				add(Scenario{Class: "idle-writers", Res: r,
 					Subs: []SubSpec{{Kind: "pull", BP: bp, UpdatesOnly: uo, Consume: "drain", Cancel: "end"}}})
 				add(Scenario{Class: "two-subscribers-one-abandons", Res: r, Writers: w1,
@@ -80,6 +82,9 @@ func fixedScenarios(f lib.Flags) []Scenario {
 			add(Scenario{Class: "pullid-cancelled", Res: "collection", Initial: []string{"x"},
 				Writers: [][]Op{{{Kind: "upd", ID: "x"}, {Kind: "upd", ID: "x"}}, collOps(0, 4, nil)},
 				Subs:    []SubSpec{{Kind: "pullid", ID: "x", BP: bp, UpdatesOnly: uo, Consume: "drain", Cancel: "end"}}})
+			add(Scenario{Class: "pullid-walk-away", Res: "collection", Initial: []string{"x"},
+				Writers: [][]Op{{{Kind: "upd", ID: "x"}, {Kind: "upd", ID: "x"}}},
+				Subs:    []SubSpec{{Kind: "pullid", ID: "x", BP: bp, UpdatesOnly: uo, Consume: "abandon", Cancel: "end"}}})
 			add(Scenario{Class: "pullid-abandoned", Res: "collection", Initial: []string{"x"},
 				Writers: [][]Op{{{Kind: "upd", ID: "x"}, {Kind: "upd", ID: "x"}}},
 				Subs:    []SubSpec{{Kind: "pullid", ID: "x", BP: bp, UpdatesOnly: uo, Consume: "none", Cancel: "end"}}})
@@ -110,7 +115,7 @@ func pointScenarios(f lib.Flags, points map[string]int) []Scenario {
 					bp      bool
 					consume string
 					linger  int
-				}{{true, "drain", 0}, {true, "drain", 300}, {false, "drain", 300}, {true, "stop", 300}, {true, "none", 0}} {
+				}{{true, "drain", 0}, {true, "drain", 300}, {false, "drain", 300}, {true, "stop", 300}, {true, "none", 0}, {false, "abandon", 0}} {
 					if !f.Thorough() && (occ+vi)%2 == 1 && occ > 2 {
 						continue
 					}
@@ -183,7 +188,9 @@ func randomScenarios(f lib.Flags) []Scenario {
 				sp.Kind = "pullid"
 				sp.ID = "x"
 			}
-			switch r.Intn(4) {
+			switch r.Intn(5) {
+			case 4:
+				sp.Consume = "abandon"
 			case 0:
 				sp.Consume = "none"
 			case 1:
